@@ -31,6 +31,22 @@ pub const NOT_INSTRUCTION_METHODS: &[&str] = &[
     "emit_u128",
 ];
 
+/// rows that CBMC decides, but slowly (5 min for mov_imm, 10-15 min and several GB each for the
+/// ldr_mem_* / str_mem_* helpers, which contain mov_imm): a driver with a time budget may skip them.
+pub const SLOW_ROWS: &[&str] = &[
+    "mov_imm",
+    "ldr_mem_x",
+    "ldr_mem_w",
+    "ldr_mem_b",
+    "ldr_mem_d",
+    "ldr_mem_s",
+    "str_mem_x",
+    "str_mem_w",
+    "str_mem_b",
+    "str_mem_d",
+    "str_mem_s",
+];
+
 // ------------------------------------------------------------------------------------------
 // operand sources: every variant of every operand type
 
